@@ -371,6 +371,39 @@ def _fork_apply(opi, hist, ctx):
     return (got, dump(), lookups(_STATE['bl'])), cms
 
 
+def _explore_first(first):
+    ops, C, pristine, model0, bl_name, depth = (_STATE[k] for k in ('ops', 'C', 'pristine', 'model0', 'bl', 'depth'))
+    viols, states, inproc = [], set(), {}
+    nhist = nsteps = 0
+    core = list(range(len(ops)))
+    deep = _STATE['core_deep']
+    with warnings.catch_warnings():
+        warnings.simplefilter('ignore')
+        plans = [(d, core) for d in range(1, depth + 1)]
+        if depth >= 4 and first in deep:
+            plans.append((depth + 1, deep))
+        for d, alph in plans:
+            for rest in itertools.product(alph, repeat=d - 1):
+                hist = (first,) + rest
+                r = run_history(hist, ops, C, pristine, model0, bl_name, viols, check_all_steps=False)
+                if r is None:
+                    continue
+                nhist += 1
+                nsteps += d
+                if r != ('desync',):
+                    states.add(r[1])
+                    if d <= 2:
+                        inproc[hist] = r
+        restore(pristine)
+    # violations are deduplicated by signature in the parent; keep one representative per signature here
+    seen, keepv = set(), []
+    for v in viols:
+        if v[0] not in seen:
+            seen.add(v[0])
+            keepv.append(v)
+    return keepv, nhist, nsteps, states, inproc
+
+
 def run(ctx):
     import beartype.claw  # noqa: F401
     from beartype._data.shame.module.datashamemod import BLACKLIST_PACKAGE_NAMES
@@ -385,31 +418,24 @@ def run(ctx):
     builtin = set(BLACKLIST_PACKAGE_NAMES) | set(claw_state.packages_trie_blacklist.keys())
     model0 = Model(builtin)
     _STATE.update(ops=ops, C=C, bl=bl_name)
+    _STATE.update(pristine=pristine, model0=model0, depth=depth)
     viols = []
     nhist = nsteps = 0
     states = set()
     inproc = {}
-    with warnings.catch_warnings():
-        warnings.simplefilter('ignore')
-        core = list(range(len(ops)))
-        if depth == 4:
-            # depth 4 over a reduced alphabet (enter/exit, conflicting registrations, skips)
-            keep = {('all', 'A'), ('all', 'B'), ('all', 'S'), ('package', 'a', 'A'), ('package', 'a.b', 'B'), ('package', 'a.b', 'A'),
-                    ('packages', ('c', 'a.b'), 'B'), ('enter', 'A'), ('enter', 'D'), ('enter', 'S'), ('enter', 'bad'), ('exit',)}
-            core4 = [i for i, op in enumerate(ops) if op in keep]
-        for d in range(1, depth + 1):
-            alph = core if d <= 3 else core4
-            for hist in itertools.product(alph, repeat=d):
-                r = run_history(hist, ops, C, pristine, model0, bl_name, viols, check_all_steps=False)
-                if r is None:
-                    continue
-                nhist += 1
-                nsteps += d
-                if r != ('desync',):
-                    states.add(r[1])
-                    if d <= 2:
-                        inproc[hist] = r
-        restore(pristine)
+    keep = {('all', 'A'), ('all', 'B'), ('all', 'S'), ('package', 'a', 'A'), ('package', 'a.b', 'B'), ('package', 'a.b', 'A'),
+            ('packages', ('c', 'a.b'), 'B'), ('enter', 'A'), ('enter', 'D'), ('enter', 'S'), ('enter', 'bad'), ('exit',)}
+    _STATE['core_deep'] = [i for i, op in enumerate(ops) if op in keep]
+    # one worker per first operation: every history starting with it, complete up to `depth`, and (thorough) one step
+    # deeper over the reduced alphabet (enter/exit, conflicting registrations, skips)
+    for part in ctx.pmap(_explore_first, list(range(len(ops))), fresh=True):
+        v, nh, ns, st, ip = part
+        viols += v
+        nhist += nh
+        nsteps += ns
+        states |= st
+        inproc.update(ip)
+    restore(pristine)
     # ---- E2 cross-validation of the snapshot/restore discipline
     firsts = list(range(len(ops)))
     sample2 = [h for k, h in enumerate(sorted(h for h in inproc if len(h) == 2)) if k % 97 == ctx.seed % 97][:60]
@@ -433,7 +459,7 @@ def run(ctx):
         distinct_nontrivial=len(states), histories=nhist, depth=depth, operations=len(ops), queries_per_state=len(QUERIES),
         histories_cross_checked_in_forked_processes=nfork, builtin_excluded_package_used=bl_name, exhaustive=True,
         samples=[[op_src(ops[i]) for i in h] for h in list(inproc)[:: max(1, len(inproc) // 3)][:3]],
-        rule=(f'every history of length <= {depth} (length 4 over a 12-operation core) over {len(ops)} operations (beartype_all, beartype_package(s) over '
+        rule=(f'every history of length <= {depth}{"" if depth < 4 else " (and of length %d over a 12-operation core)" % (depth + 1)} over {len(ops)} operations (beartype_all, beartype_package(s) over '
               'equal / ancestor / descendant / sibling / builtin-excluded / invalid names, beartype_this_package from a synthetic module, '
               'beartyping() enter/exit nested, with equal, different, skipping and invalid configurations) replayed on the real registry from a '
               'restored pristine snapshot in lock step with the declarative model; after the last step: outcome class, 13 lookups, path-hook '
